@@ -469,11 +469,17 @@ class Quantity:
         return '<Quantity ' + str(self.value) + ' ' + self.unit.name + '>'
 
     def to_string(self, unit=None, precision=None, format=None, decimal=False, **kwargs):
-        """A-UNITS: '<value in unit with `precision` decimals> <unit name>'"""
+        """A-UNITS: '<value in unit with `precision` decimals> <unit name>' - in fixed-point notation, which is what numpy's
+        array2string (used by astropy) produces for precision >= 1 and 1e-4 <= |value| < 1e16 or value == 0; outside that range it
+        switches to scientific notation and at precision 0 it writes a bare trailing point (found by bounded/models.py): there the
+        model says nothing"""
         q = self if unit is None else self.to(unit)
         if precision is None:
             return str(q.value) + ' ' + q.unit.name
-        return vprim.rope_fmt(q.value, precision) + ' ' + q.unit.name
+        v = q.value
+        vprim.model_limit('Quantity.to_string writes fixed-point notation (precision >= 1, value 0 or 1e-4 <= |value| < 1e16)',
+                          precision >= 1 and (v == 0 or (abs(v) >= 0.0001 and abs(v) < 10000000000000000)))
+        return vprim.rope_fmt(v, precision) + ' ' + q.unit.name
 
     def copy(self):
         return self._from_si(vprim.deepcopy(self.si), self.unit)
